@@ -18,7 +18,15 @@ def gen_case(rng):
         labels, terms, matrix = pure.gen_model(rng, kind)
         p0 = rng.choice([0.0, 0.01, 0.3, 0.5, 0.9, 0.999, 1 - 1e-7, 1 - 1e-9, 1 - 1e-12])
         pf = rng.choice([p for p in [0.0, 1e-12, 0.001, 0.01, 0.3, 0.5, 0.9, 0.999, 1 - 1e-7, 1 - 1e-9, 1 - 1e-12] if p <= p0])
-        return {"op": "temprange", "spin": spin, "kind": kind, "labels": labels, "terms": terms, "p0": p0, "pf": pf}
+        case = {"op": "temprange", "spin": spin, "kind": kind, "labels": labels, "terms": terms, "p0": p0, "pf": pf}
+        if kind == "dict" and spin and labels and rng.random() < 0.2:
+            # a raw spin dict whose keys repeat every label an even number of times (it still mentions spins)
+            l0 = labels[0]
+            l1 = labels[1] if len(labels) > 1 else labels[0]
+            case["terms"] = {(l0, l0): rng.choice([5, -2]), (l0, l1, l1, l0): 2}
+        if kind != "dict" and rng.random() < 0.3:
+            case["rescaled"] = rng.choice([100, 1000])       # asked once before, then rescaled in place, then asked again
+        return case
     if rng.random() < 0.12:
         # the bounds helper of the constraint methods: missing bounds are computed, given ones are kept
         labels, terms, matrix = pure.gen_model(rng, "PUBO")
@@ -29,7 +37,7 @@ def gen_case(rng):
         spin = rng.random() < 0.5
         kind = rng.choice(["dict", "PUSO" if spin else "PUBO", "PUSOMatrix" if spin else "PUBOMatrix"])
         labels, terms, matrix = pure.gen_model(rng, kind, raw_dict_tricks=False, allow_empty=False, halves_p=0)
-        big = {k: (rng.choice([-2, -1, 1, 2]), rng.choice([-1, 0, 1])) for k in terms}
+        big = {k: (rng.choice([-2, -1, 1, 2, 512, 512, -512, 400]), rng.choice([-1, 0, 1])) for k in terms}     # up to 2^62 each
         return {"op": "extrema2", "fn": "approximate_puso_extrema" if spin else "approximate_pubo_extrema", "spin": spin, "kind": kind,
                 "labels": labels, "terms": {k: c * 2 ** 53 + d for k, (c, d) in big.items()}, "limbs": {repr(k): v for k, v in big.items()}}
     fn = rng.choice(sorted(FNS))
@@ -112,6 +120,14 @@ def run_case(case, cid):
                 rec["lo"], rec["hi"] = common.to_int(common.frac(lo), den), common.to_int(common.frac(hi), den)
                 rec["K"] = sorted({nm(x) for k, _ in terms for x in k}, key=str)
             else:
+                if case.get("rescaled"):
+                    try:
+                        sim.anneal_temperature_range(model, case["p0"], case["pf"], case["spin"])
+                    except Exception:      # noqa
+                        pass
+                    model *= case["rescaled"]
+                    snap = copy.deepcopy(model)
+                    terms = [(k, common.frac(v)) for k, v in pure.items_of(snap)]
                 T0, Tf = sim.anneal_temperature_range(model, case["p0"], case["pf"], case["spin"])
                 den = common.common_den([common.frac(v) for _, v in terms])
                 novars = not any(k for k, v in terms if v)
